@@ -917,13 +917,99 @@ theorem src_attack_eq_spec (a d x : K) (xs : List K) (n : Nat) :
   · exact attackG_field_strm a d x xs n
   · rfl
 
+/-- **C19.src.10** `ones` / `zeros` as regenerated from the source (the optional duration, the endless
+`while True` that the finite loop is never reached after) are `constG` with the yielded constant. -/
+theorem src_ones_is_model {α : Type} (o : NumOps α) : ALV.Gen.C19.ones o = constG o o.one := by
+  funext dur n; exact gen_ones o dur n
+
+theorem src_zeros_is_model {α : Type} (o : NumOps α) : ALV.Gen.C19.zeros o = constG o o.zero := by
+  funext dur n; exact gen_zeros o dur n
+
+/-- **C19.src.11** `impulse` as regenerated from the source is `impulseG`, for items of any type. -/
+theorem src_impulse_is_model {α β : Type} (o : NumOps α) :
+    (ALV.Gen.C19.impulse o : Option α → β → β → Nat → Run β) = impulseG o := by
+  funext dur one zero n; exact gen_impulse o dur one zero n
+
+-- the regenerated definitions run: an endless / a rounded / a refused duration
+example : ALV.Gen.C19.ones (fieldOps : NumOps Rat) none 3 = ([1, 1, 1], none) ∧
+    ALV.Gen.C19.zeros (fieldOps : NumOps Rat) (some (5/2)) 9 = ([0, 0, 0], none) ∧
+    ALV.Gen.C19.impulse (fieldOps : NumOps Rat) (some (5/2)) 'a' 'b' 9 = (['a', 'b', 'b'], none) ∧
+    ALV.Gen.C19.impulse (fieldOps : NumOps Rat) (some (1/4)) 'a' 'b' 9 = ([], none) ∧
+    ALV.Gen.C19.impulse (fieldOps : NumOps Rat) none 'a' 'b' 2 = (['a', 'b'], none) := by decide +kernel
+
+/-- **C19.src.12** `sinusoid` as regenerated from the source (which argument of `modulo_counter` is the phase, which
+the frequency, the modulo `2 * pi`, `sin` of every sample) is `sinusoidNow` … -/
+theorem src_sinusoid_is_model {α β : Type} (o : NumOps α) :
+    (ALV.Gen.C19.sinusoid o : (α → β) → α → Arg α → Arg α → Nat → Run β) = sinusoidNow o := by
+  funext sin twoPi freq phase n; exact gen_sinusoid o sin twoPi freq phase n
+
+/-- … over the exact operations the model `sinusoid` of C19.sin.1 / C19.sin.2, raising nothing. -/
+theorem src_sinusoid_exact {β : Type} (sin : K → β) (twoPi : K) (freq phase : Arg K) (n : Nat) :
+    ALV.Gen.C19.sinusoid fieldOps sin twoPi freq phase n = (sinusoid sin twoPi freq phase n, none) := by
+  rw [gen_sinusoid, sinusoidNow, mcNow_eq_mcG fieldOps _ _ _ n (fun m s _ _ _ => ⟨_, rfl⟩), mcG_field]
+  rfl
+
+/-- **C19.src.13** `TableLookup.__call__` as regenerated from the source — the cycle length, step and start of the
+counter, the modulo `float(len(self))`, and for every position the sample `tbl[int(idx)] * (1. - (idx - int(idx))) +
+tbl[int(ceil(idx)) - total_length] * (idx - int(idx))` with its raising primitives in Python's order of evaluation — is
+`tableCallNow` … -/
+theorem src_table_call_is_model {α : Type} : @ALV.Gen.C19.table_call α = @tableCallNow α := by
+  funext o tbl den freq phase n; exact gen_table_call o tbl den freq phase n
+
+/-- … which is the generic twin `tableCallG` of rounds 3–4 where `int(modulo / step)` raises nothing and `ceil`
+raises nothing when `int()` raises nothing … -/
+theorem src_table_call_eq_G {α : Type} (o : NumOps α) (tbl : List α) (den : α) (freq phase : Arg α) (n : Nat)
+    (hc : ∀ idx i, o.trunc idx = .ok i → ∃ c, o.ceil idx = .ok c)
+    (hm : ∀ m s, o.isZero s = false → ∃ k, o.trunc (o.div m s) = .ok k) :
+    ALV.Gen.C19.table_call o tbl den freq phase n = (tableCallG o tbl den freq phase n).1 := by
+  rw [gen_table_call, tableCallNow_eq_G o tbl den freq phase n hc hm]
+
+/-- … hence, over exact numbers and a non-empty table, the cyclic linear interpolation of the table at the
+unreduced positions (C19.table.1), raising nothing. -/
+theorem src_table_call_eq_spec (tbl : List K) (h : tbl ≠ []) (den : K) (freq phase : Arg K) (n : Nat) :
+    ALV.Gen.C19.table_call fieldOps tbl den freq phase n = (tableSpec tbl den freq phase n, none) := by
+  rw [src_table_call_eq_G fieldOps tbl den freq phase n (fun _ _ _ => ⟨_, rfl⟩) (fun _ _ _ => ⟨_, rfl⟩),
+    tableCallG_field tbl h den freq phase n]
+
+example : ALV.Gen.C19.table_call (fieldOps : NumOps Rat) [0, 10, 20, 30] 1 (.num (3/8)) (.num (1/2)) 4
+    = (tableCallG (fieldOps : NumOps Rat) [0, 10, 20, 30] 1 (.num (3/8)) (.num (1/2)) 4).1 := by decide +kernel
+
+/-- **C19.src.14** `TableLookup.__getitem__` as regenerated from the source (D15 as repaired: `left = int(floor(idx))`,
+both neighbours `% len(self)`, the weights `1. - (idx - left)` and `idx - left`) is `getItemNow` … -/
+theorem src_table_getitem_is_model {α : Type} : @ALV.Gen.C19.table_getitem α = @getItemNow α := by
+  funext o floor tbl idx; exact gen_table_getitem o floor tbl idx
+
+/-- … hence, over exact numbers and a non-empty table, the cyclic linear interpolation `interpCyc` for EVERY index,
+negative and fractional ones included, raising nothing; on an empty table it raises ZeroDivisionError. -/
+theorem src_table_getitem_eq_spec (tbl : List K) (h : tbl ≠ []) (idx : K) :
+    ALV.Gen.C19.table_getitem fieldOps (fun x => .ok (Floor.floor x)) tbl idx = .ok (interpCyc tbl idx) := by
+  have hL : ((tbl.length : Nat) : Int) ≠ 0 := by
+    have := List.length_pos_of_ne_nil h; omega
+  have key : getItemNow fieldOps (fun x => .ok (Floor.floor x)) tbl idx
+      = match getItemLen tbl tbl.length idx with
+        | some v => .ok v
+        | none => .error "IndexError" := by
+    simp only [getItemNow, getItemLen, hL, if_false, fieldOps]
+    cases pyIndex tbl ((Floor.floor idx : Int).fmod (tbl.length : Int)) <;>
+      cases pyIndex tbl ((pyCeil idx).fmod (tbl.length : Int)) <;> rfl
+  rw [gen_table_getitem, key, getItemLen_eq tbl h idx]
+
+theorem src_table_getitem_empty {α : Type} (o : NumOps α) (floor : α → Except String Int) (idx : α) (k : Int)
+    (hf : floor idx = .ok k) : ALV.Gen.C19.table_getitem o floor [] idx = .error "ZeroDivisionError" := by
+  simp [gen_table_getitem, getItemNow, hf]
+
+example : ALV.Gen.C19.table_getitem (fieldOps : NumOps Rat) (fun x => .ok (Floor.floor x)) [0, 10, 20, 30] (-1/2)
+    = .ok 15 := by decide +kernel
+
 /-- **C19.src.9** the defaults and decorators as written in the source are the documented ones. -/
 theorem src_defaults_are_documented :
     ALV.Gen.C19.defaults = [("modulo_counter", "start", "0.0"), ("modulo_counter", "modulo", "256.0"),
       ("modulo_counter", "step", "1.0"), ("line", "begin", "0.0"), ("line", "end", "1.0"),
-      ("line", "finish", "False")] ∧
+      ("line", "finish", "False"), ("ones", "dur", "None"), ("zeros", "dur", "None"), ("impulse", "dur", "None"),
+      ("impulse", "one", "1.0"), ("impulse", "zero", "0.0"), ("sinusoid", "phase", "0.0"), ("table_call", "phase", "0.0")] ∧
     ALV.Gen.C19.decorators = [("modulo_counter", ["tostream"]), ("line", ["tostream"]), ("fadein", []),
-      ("fadeout", []), ("attack", []), ("adsr", ["tostream"])] := by decide
+      ("fadeout", []), ("attack", []), ("adsr", ["tostream"]), ("ones", ["tostream"]), ("zeros", ["tostream"]),
+      ("impulse", ["tostream"]), ("sinusoid", ["tostream"]), ("table_call", []), ("table_getitem", [])] := by decide
 
 -- the regenerated definitions run: fast path with the batch boundary crossed, start a stream, …
 example : ALV.Gen.C19.modulo_counter (fieldOps : NumOps Rat) (.num 1) (.num 5) (.num 2) 6 = ([1, 3, 0, 2, 4, 1], none) ∧
